@@ -509,7 +509,7 @@ def feasible_paths(ctx, f, loop, case):
     out, seen_cut = [], set()
     for path, kind in loop.paths:
         ok = True
-        decisions = {nd.id: pol for nd, pol in path_decisions(f, path)}
+        decisions = {nd.id: pol for nd, pol in path_decisions(f, path, kind)}
         cut = None
         established = False
         for i, nid in enumerate(path):
